@@ -320,3 +320,37 @@ Theorem C14_time_der_canonical : forall utc tag inp t rest,
   exists e, time_to_der utc tag (Some t) = Ok e /\ inp = e ++ rest.
 Proof. exact time_der_canonical. Qed.
 Print Assumptions C14_time_der_canonical.
+
+(* ---- PEM framing (src/pem.c) over the base64 stream codec *)
+From GmVerif Require Import Codec.Pkcs Codec.Pem Codec.PemProofs.
+
+Theorem C14_pem_write_text : forall name data, data <> [] ->
+  pem_write name data = Some (pem_header name ++ encode_all data ++ pem_footer name).
+Proof. exact pem_write_spec. Qed.
+Print Assumptions C14_pem_write_text.
+
+(* read(write x) = x, for every name without NUL/CR/LF of at most 62 characters, every data that
+   fits the declared capacity, and whatever follows in the file (left unread) *)
+Theorem C14_pem_roundtrip : forall name data text tail maxlen,
+  name_ok name -> bytes_okP data -> len data <= maxlen ->
+  pem_write name data = Some text -> pem_read name (text ++ tail) maxlen = Ok (data, tail).
+Proof. exact pem_roundtrip. Qed.
+Print Assumptions C14_pem_roundtrip.
+
+Theorem C14_pem_capacity : forall name inp maxlen d rest,
+  pem_read name inp maxlen = Ok (d, rest) -> len d <= maxlen.
+Proof. exact pem_read_capacity. Qed.
+Print Assumptions C14_pem_capacity.
+
+Theorem C14_pem_refuses_too_small_capacity : forall name data text tail maxlen,
+  name_ok name -> bytes_okP data -> maxlen < len data ->
+  pem_write name data = Some text -> pem_read name (text ++ tail) maxlen = Err.
+Proof. exact pem_read_too_small. Qed.
+Print Assumptions C14_pem_refuses_too_small_capacity.
+
+Theorem C14_pem_refuses_bad_char : forall name lines pre c post more maxlen, name_ok name ->
+  Forall (fun l => len l <= 78 /\ clean l /\ l <> end_line name) lines ->
+  len (pre ++ c :: post) <= 78 -> clean (pre ++ c :: post) -> noeof pre -> ascii2bin c = B64_ERROR ->
+  pem_read name (begin_line name ++ 10 :: nl_lines lines ++ (pre ++ c :: post) ++ 10 :: more) maxlen = Err.
+Proof. exact pem_read_bad_char. Qed.
+Print Assumptions C14_pem_refuses_bad_char.
